@@ -46,6 +46,10 @@ def shape_predicate(e):
             found.add("min-max-node")
         if t == "if":
             found.add("conditional-expression")
+        if t == "call" and any(a[0] == "if" for a in j[2][:-1] + ([j[2][-1]] if j[3] else [])):
+            found.add("conditional-in-argument-list")
+        if t in ("min", "max") and any(a[0] == "if" for a in j[1][:-1]):
+            found.add("conditional-in-argument-list")
         if t == "not":
             found.add("logical-not")
         if t == "cmp":
@@ -65,6 +69,8 @@ def shape_predicate(e):
                                 pass
     walk(e)
     # one primary explanation, by priority (keeps finding signatures narrow and few)
+    if "conditional-in-argument-list" in found:
+        return ["conditional-in-argument-list"]
     for name in ("power-with-power-as-base", "min-max-node", "power-of-negated-base", "quotient-with-compound-denominator",
                  "power-of-negative-constant", "conditional-expression", "logical-not", "comparison"):
         if name in found:
@@ -77,6 +83,25 @@ def run(chk):
     es = exprgen.generate(chk, maxt, full=True, roots=("a", "b"))
     n_exh = len(es)
     es += exprgen.generate(chk, 9, full=True, roots=("a", "b"), simulate=400 if chk.quick else 20000, depth=10)
+    # every interesting form in every syntactic position (positions the bounded enumeration does not reach)
+    X, Yv, Z = ["v", "x"], ["v", "y"], ["v", "<state>z"]
+    lt = ["cmp", "<", X, ["c", 1]]
+    inner = [["if", lt, X, Yv], lt, ["not", lt], ["and", [lt, ["cmp", ">", Yv, ["c", 0]]]], ["pow", X, ["c", 2]],
+             ["sum", [X, ["c", -1]]], ["prod", [["c", -1], X]], ["prod", [X, Yv]], ["quot", X, Yv], ["c", -2], Z,
+             ["call", ["v", "<func>f"], [X], [["k", Yv]]], ["sub", ["v", "arr"], [X]], ["min", [X, Yv]],
+             ["v", "<cond>"], ["v", "<t>"], ["v", "<dt>"], ["v", "<cond>_0"]]          # names that consist of a tag only
+    boolean = {1, 2, 3, 14, 17}
+    for k, e in enumerate(inner):
+        if k in boolean:
+            ctxs = [["if", e, X, Yv], ["not", e], ["and", [e, lt]], ["or", [lt, e]], ["and", [["not", e], lt]],
+                    ["or", [e, lt]], ["and", [lt, e]], ["if", ["and", [e, lt]], Yv, X]]
+        else:
+            ctxs = [["call", ["v", "<func>g"], [e, Yv], []], ["call", ["v", "<func>g"], [Yv, e], []],
+                    ["call", ["v", "<func>f"], [Yv], [["k", e]]], ["call", ["v", "<func>f"], [e], [["k", Yv]]],
+                    ["sub", ["v", "arr"], [e]], ["sum", [e, Yv]], ["sum", [Yv, e]], ["prod", [e, Yv]], ["prod", [Yv, e]],
+                    ["pow", e, ["c", 2]], ["pow", ["c", 2], e], ["quot", e, Yv], ["quot", Yv, e], ["if", lt, e, Yv],
+                    ["if", lt, Yv, e], ["cmp", "<", e, Yv], ["cmp", ">=", Yv, e], ["min", [e, Yv]], ["prod", [["c", -1], e]]]
+        es.extend(ctxs)
     cases = []
     for k, e in enumerate(es):
         cases.append(roundtrip(e))
